@@ -6,7 +6,7 @@ From Coq Require Import ZArith NArith List.
 Import ListNotations.
 Open Scope Z_scope.
 
-Theorem C04_next_fixed_offset : forall b off t, off mod 60 = 0 ->
+Theorem C04_next_fixed_offset : forall b off, off mod 60 = 0 -> forall t,
   next_model b (fixed_zone off) t = result_of_option (next_ref (dsched_of_bits b) (fixed_zone off) t).
 Proof. exact next_fixed_offset. Qed.
 Print Assumptions C04_next_fixed_offset.
